@@ -16,6 +16,7 @@ mod render;
 mod rng;
 mod runner;
 mod seam;
+mod selftest;
 mod types;
 mod writer;
 
@@ -619,7 +620,89 @@ fn cmd_check(a: &[String]) -> i32 {
     }
 }
 
-fn cmd_selftest(_a: &[String]) -> i32 {
-    println!("selftest: build {} ok", build_name());
+fn cmd_selftest(a: &[String]) -> i32 {
+    let quick = a.iter().any(|x| x == "--quick");
+    let verif = PathBuf::from(flag(a, "--verif").unwrap_or_else(|| "/verif".into()));
+    // 1. stub fidelity against real derived types
+    match selftest::fidelity() {
+        Ok(n) => println!("selftest: stub fidelity ok ({n} trace comparisons against real #[derive] types, build {})", build_name()),
+        Err(e) => {
+            eprintln!("HARNESS ERROR: stub fidelity: {e}");
+            return 2;
+        }
+    }
+    // 2. determinism: same runs, other processes / worker counts / order / heap layout -> same digests
+    let bins: BTreeMap<String, PathBuf> = flag(a, "--bins")
+        .unwrap_or_default()
+        .split(',')
+        .filter(|s| !s.is_empty())
+        .map(|kv| {
+            let (k, v) = kv.split_once('=').expect("--bins name=path");
+            (k.to_string(), PathBuf::from(v))
+        })
+        .collect();
+    let seed = env_seed();
+    let work = verif.join("work").join("selftest");
+    let builds: Vec<&str> = if quick { vec!["default"] } else { vec!["default", "preserve_order"] };
+    let mut compared = 0u64;
+    for b in builds {
+        let exe = match bins.get(b) {
+            Some(e) => e.clone(),
+            None => std::env::current_exe().unwrap(),
+        };
+        for prop in ["C07", "C13", "C14", "C15", "C17"] {
+            let n: u64 = match (prop, quick) {
+                ("C15", true) => 300,
+                ("C15", false) => 3000,
+                (_, true) => 3000,
+                (_, false) => 40_000,
+            };
+            let configs: Vec<(&str, u64, &str)> = if quick { vec![("0", 16, "0"), ("32", 3, "1")] } else { vec![("0", 16, "0"), ("32", 3, "1"), ("8", 1, "0")] };
+            let mut maps: Vec<BTreeMap<u64, u64>> = Vec::new();
+            for (k, (pad, nw, rev)) in configs.iter().enumerate() {
+                let wd = work.join(format!("{b}-{prop}-{k}"));
+                let outf = work.join(format!("{b}-{prop}-{k}.json"));
+                let _ = std::fs::create_dir_all(&work);
+                let st = std::process::Command::new(&exe)
+                    .env("SIM_ALLOC_PAD", pad)
+                    .args(["batch", prop, "quick", &seed.to_string(), &nw.to_string(), &n.to_string()])
+                    .arg(&wd)
+                    .arg(work.join("replays"))
+                    .args(["600", "1", rev])
+                    .arg(&outf)
+                    .status();
+                match st {
+                    Ok(st) if st.success() => match std::fs::read_to_string(&outf).ok().and_then(|t| serde_json::from_str::<BatchOut>(&t).ok()) {
+                        Some(bo) => maps.push(bo.digests),
+                        None => {
+                            eprintln!("HARNESS ERROR: selftest batch {b}/{prop}/{k}: unreadable output");
+                            return 2;
+                        }
+                    },
+                    other => {
+                        eprintln!("HARNESS ERROR: selftest batch {b}/{prop}/{k}: {other:?}");
+                        return 2;
+                    }
+                }
+                let _ = std::fs::remove_dir_all(&wd);
+                let _ = std::fs::remove_file(&outf);
+            }
+            for m in &maps[1..] {
+                if m.len() != maps[0].len() {
+                    eprintln!("HARNESS ERROR: determinism: {prop} ({b}) executed {} vs {} runs", maps[0].len(), m.len());
+                    return 2;
+                }
+                for (i, d) in &maps[0] {
+                    compared += 1;
+                    if m.get(i) != Some(d) {
+                        eprintln!("HARNESS ERROR: determinism: {prop} ({b}) run {i} has digest {d:#x} in one process and {:?} in another (different worker count / order / allocator padding)", m.get(i));
+                        return 2;
+                    }
+                }
+            }
+        }
+    }
+    let _ = std::fs::remove_dir_all(&work);
+    println!("selftest: determinism ok ({compared} run digests equal across processes, worker counts 16/3{}, forward/reverse order, allocator padding 0/32{})", if quick { "" } else { "/1" }, if quick { "" } else { "/8" });
     0
 }
